@@ -24,6 +24,7 @@ type c10Case struct {
 	StapA    bool      `json:"stapa"`
 	Calls    []c10Call `json:"calls"`
 	Payloads [][]int   `json:"payloads"`
+	Huge     int       `json:"huge"`
 	Class    string    `json:"class"`
 }
 
@@ -75,6 +76,10 @@ func runC10(raw json.RawMessage, w *Writer) {
 	}
 	w.Emit(Ev{"ev": "reset", "class": c.Class, "kind": c.Kind, "mtu": c.Mtu, "stapa": c.StapA})
 	rx := newH264Rx()
+	if c.Kind == "huge" {
+		w.Emit(hugeH264(c.Huge, c.Mtu))
+		return
+	}
 	if c.Kind == "decoder" {
 		for k, p := range c.Payloads {
 			e := rx.feed(bytesOf(p))
